@@ -252,6 +252,9 @@ def searcher_rules(ctx):
     return f
 
 
+THOROUGH_SAMPLE = 10
+
+
 class ShapeFamily:
     """generic harness fn instantiated per shape"""
 
@@ -274,7 +277,7 @@ class ShapeFamily:
         self.rules = rules
         self.heavy = heavy
 
-    def obligations(self, tier):
+    def obligations(self, tier, seed=0):
         out = []
         if self.quick_shapes is None:
             qs = SH.quick_shapes()
@@ -283,7 +286,17 @@ class ShapeFamily:
         shapes = [(s, "quick") for s in qs]
         if tier == "thorough":
             if self.thorough_shapes is None:
-                ts = SH.all_shapes()
+                # the complete pool (every shape of <=4 lines / <=8 bytes) is well over a hundred shapes
+                # per family: a run takes THOROUGH_SAMPLE of them, chosen by VERIF_SEED, so that
+                # different seeds cover different parts of the pool and one run stays in hours
+                import random
+                import zlib
+                pool = [s for s in SH.all_shapes(max_lines=4, max_bytes=8) if not self.shape_filter or self.shape_filter(s)]
+                seen = {(q.hay, q.term) for q in qs}
+                pool = [s for s in pool if (s.hay, s.term) not in seen]
+                rnd = random.Random(seed * 7919 + zlib.crc32(self.fn.encode()))
+                rnd.shuffle(pool)
+                ts = pool[:THOROUGH_SAMPLE]
             else:
                 ts = [SH.by_name(n) for n in self.thorough_shapes]
             shapes += [(s, "thorough") for s in ts]
@@ -308,7 +321,7 @@ class NulFamily(ShapeFamily):
         self.two = two
         self.skip = skip
 
-    def obligations(self, tier):
+    def obligations(self, tier, seed=0):
         out = []
         for a, b in SH.nul_shapes():
             if a.name in self.skip:
@@ -536,7 +549,7 @@ def obligations(prop, tier, seed):
             out.append(u)
     for f in FAMILIES:
         if prop in f.props:
-            obs = f.obligations(tier)
+            obs = f.obligations(tier, seed)
             lim = QUICK_ONLY.get(prop, {})
             if tier == "quick" and f.fn in lim:
                 keep = lim[f.fn]
